@@ -349,6 +349,12 @@ def norm_dump(objs):
 MODEL_ERRS = {'OperationWithDeletedObjectError', 'ValueError', 'TypeError', 'ConstraintError', 'RecursionError'}
 
 
+def self_conflict(op):
+    """Entity.set keywords that reference the object itself (obj.set(parent=obj, ...), obj.set(children=[obj, ..], ...)): the known finding"""
+    o = op['o']
+    return any(v == o for _, v in op['refs']) or any(o in items for _, items in op['colls'])
+
+
 def classify(w, op, err, p, key, q, prev):
     """canonical id of the kind of disagreement (root cause where it is recognisable, else call/outcome/relationship/which end)"""
     rel = w.schema['rels'][key[0]]
@@ -359,7 +365,7 @@ def classify(w, op, err, p, key, q, prev):
         okey = (op['a'][0], bool(op['a'][1]))
         if w.side(okey)['casc'] and held(prev[op['o']], okey):
             return 'one-to-one-cascade-reassign'
-    if op['k'] == 'setMany' and p == q == op.get('o'):
+    if op['k'] == 'setMany' and self_conflict(op):
         return 'entity-set-conflicting-self-reference'
     o = op.get('o', None)
     where = 'target-lost' if q == o else ('target-kept' if p == o else 'other')
@@ -509,6 +515,8 @@ def memory_phase(ctx, rng, nhist, nops):
         k = -1
         for i, (err, snap, tag) in enumerate(real):
             if ops[i].get('skip_model'): continue
+            if ops[i]['k'] == 'setMany' and self_conflict(ops[i]):
+                ctx.count('setMany:conflicting-self-reference-not-compared'); break
             ex = expand(ops[i])
             if not ex: continue
             if any(steps[j]['err'] for j in range(k + 1, k + len(ex))) or (len(ex) > 1 and steps[k + len(ex)]['err']):
